@@ -178,8 +178,15 @@ def diff_obs(inc: dict, fresh: dict) -> List[dict]:
     for fid in sorted(set(inc["diags"]) | set(fresh["diags"])):
         a, b = inc["diags"].get(fid, []), fresh["diags"].get(fid, [])
         if a != b:
-            extra = [x for x in a if x not in b]
-            missing = [x for x in b if x not in a]
+            # multiset difference: a second copy of a diagnostic the clean build reports once is an extra one
+            rest = list(b)
+            extra = []
+            for x in a:
+                if x in rest:
+                    rest.remove(x)
+                else:
+                    extra.append(x)
+            missing = rest
             out.append({"kind": "diagnostics", "file": fid, "stale_or_extra": extra[:4], "missing": missing[:4],
                         "n": [len(a), len(b)]})
     if inc["meta"] != fresh["meta"]:
